@@ -5,7 +5,7 @@
    dispatch, gauss_prior_kind are the executable rational model (Model/C03_GradQ.v).  Both are tied to the code
    on every run by harness/gen_C03.py (gradient AND logd differences of the same object). *)
 From CV Require Import Base.Tac Base.LinAlg Base.QcLin Model.C03_GradR Model.C03_GradQ.
-From CV Require Import Proofs.C03_GradR Proofs.C03_Quad Proofs.C03_QuadR Proofs.C03_GradQ.
+From CV Require Import Proofs.C03_GradR Proofs.C03_Quad Proofs.C03_QuadR Proofs.C03_GradQ Proofs.C03_Sym Proofs.C03_LikGen Proofs.C03_Lik.
 From Coq Require Import Reals QArith Qcanon.
 From Coquelicot Require Import Coquelicot.
 
@@ -115,6 +115,22 @@ Theorem C03_gmrf_model_line : forall (n : nat) (delta : Qc) (Pop : list (list Qc
 Proof. exact gmrf_model_line. Qed.
 Print Assumptions C03_gmrf_model_line.
 
+(* a symmetric matrix gives a symmetric bilinear form (any commutative ring, any size): the hypothesis sym_form of
+   the quadratic theorems is discharged by the executable test `transpose P = P` that every generated case runs *)
+Theorem C03_symmetric_matrix_form : forall (A : Type) (a0 a1 : A) (add mul sub : A -> A -> A) (opp : A -> A),
+  ring_theory a0 a1 add mul sub opp (@eq A) ->
+  forall (n : nat) (P : list (list A)), wf_mat n P -> length P = n -> transpose a0 n P = P -> sym_form A a0 add mul n P.
+Proof. exact transpose_sym_form. Qed.
+Print Assumptions C03_symmetric_matrix_form.
+
+(* the model's Gaussian line identity under the hypotheses the cases check by computation (well-formed, square, symb) *)
+Theorem C03_gaussian_model_line_exec : forall (n : nat) (P : list (list Qc)) (m x d : list Qc) (t : Qc),
+  wf_matb n P = true -> length P = n -> symb n P = true -> length m = n -> length x = n -> length d = n ->
+  quad_logk P m (qvadd x (qvscale t d)) =
+  (quad_logk P m x + t * qdot (quad_grad P m x) d - half * (t * t) * qdot d (qmatvec P d))%Qc.
+Proof. exact quad_model_line_exec. Qed.
+Print Assumptions C03_gaussian_model_line_exec.
+
 (* real derivatives along every direction, every dimension *)
 Theorem C03_gaussian_prior : forall (n : nat) (P : list (list R)) (m x d : list R),
   wf_mat n P -> length P = n -> rsym_form n P -> length m = n -> length x = n -> length d = n ->
@@ -170,6 +186,29 @@ Theorem C03_likelihood_chain : forall (k : nat) (P : list (list R)) (b : list R)
             (rdot (rmatvec P (veval (resid b Fs) 0%R)) Jd).
 Proof. exact likelihood_chain_derive. Qed.
 Print Assumptions C03_likelihood_chain.
+
+(* the executable model's likelihood formulas (lik_logk / lik_grad: polynomial forward models F(u) = A (u.u) + B u,
+   matrix / Jacobian / direction-Jacobian / PDE alike, through the elementwise quadratic geometry ga t^2 + gb t + gc)
+   ARE the generic-ring definitions glik_logk / glik_grad at Qc ... *)
+Theorem C03_likelihood_model_is_generic : forall A B ga gb gc P data th,
+  lik_grad A B ga gb gc P data th = glik_grad Qc 0%Qc Qcplus Qcmult Qcminus C03_GradQ.two A B ga gb gc P data th /\
+  lik_logk A B ga gb gc P data th = glik_logk Qc 0%Qc Qcplus Qcmult Qcminus Qcopp C03_GradQ.half A B ga gb gc P data th /\
+  C03_GradQ.two = (1 + 1)%Qc /\ (C03_GradQ.half + C03_GradQ.half = 1)%Qc.
+Proof.
+  intros. split; [apply lik_grad_generic|]. split; [apply lik_logk_generic|]. split; [exact two_qc | exact half_qc].
+Qed.
+Print Assumptions C03_likelihood_model_is_generic.
+
+(* ... and the same generic definitions at R satisfy the property: <lik_grad, d> is the derivative of the
+   log-likelihood along every direction d -- all sizes, all A, B, geometry coefficients, symmetric P, data, theta *)
+Theorem C03_likelihood_model_derive : forall (n k : nat) (A B P : list (list R)) (ga gb gc : R) (data th d : list R),
+  wf_mat n A -> wf_mat n B -> length A = k -> length B = k ->
+  wf_mat k P -> length P = k -> rsym_form k P ->
+  length data = k -> length th = n -> length d = n ->
+  is_derive (fun t => rlik_logk A B ga gb gc P data (rvadd th (rvscale t d))) 0%R
+            (rdot (rlik_grad A B ga gb gc P data th) d).
+Proof. exact lik_model_derive. Qed.
+Print Assumptions C03_likelihood_model_derive.
 
 (* ---------------------------------------------------------------------------------------------
    4. sum rule: Posterior (likelihood + prior) and multiple-likelihood posterior (any number of densities),
